@@ -10,7 +10,7 @@ import (
 )
 
 func profile() vh.ShimProfile {
-	v := []string{"current", "current", "forever", "past", "past", "future", "zero", "aftermax", "beforebig"}
+	v := []string{"current", "current", "forever", "past", "past", "justpast", "future", "soon", "zero", "aftermax", "beforebig"}
 	if lapseShare() > 0 {
 		for i := 0; i < lapseShare(); i++ {
 			v = append(v, "lapsing")
@@ -51,7 +51,7 @@ func exec(c vh.ShimCase) (vh.Outcome, error) {
 	return out, err
 }
 
-const rule = "histories of 1..30 operations (add key / certificate+key / hardware certificate, remove, remove-all, list, signers, sign, sign through a signer, out-of-band additions and removals on the keyring, lapse = sleep until a lapsing certificate is definitely past) over certificates that are current, forever (CertTimeInfinity), past, future, zero-window, ValidAfter > MaxInt64, ValidBefore > MaxInt64, and (in the dedicated lapse check) lapsing within 2 s; held in memory, in the keyring or both; both upstream modes. Oracle: reference model of the documented purge (orphans judged against the reported list, nothing dropped on an empty report, then expiry) over the directly observed keyring; listings compared as multisets; keyring content after every listing-type operation; signing with a certificate outside its window must fail; forever certificates still listed at the end. Time is sound: fixed classes are >= 1 h from an edge, a lapsing certificate is either >= 1 s before or definitely past its edge at each step, otherwise the history is abandoned (class time-ambiguous-abandoned). Non-trivial: the model purged a certificate or took an orphan decision with a non-empty report."
+const rule = "histories of 1..30 operations (add key / certificate+key / hardware certificate, remove, remove-all, list, signers, sign, sign through a signer, out-of-band additions and removals on the keyring, lapse = sleep until a lapsing certificate is definitely past) over certificates that are current, forever (CertTimeInfinity), past (an hour ago; five seconds ago), future (in an hour; in 25 seconds), zero-window, ValidAfter > MaxInt64, ValidBefore > MaxInt64, and (in the dedicated lapse check) lapsing within 2 s; held in memory, in the keyring or both; both upstream modes. Oracle: reference model of the documented purge (orphans judged against the reported list, nothing dropped on an empty report, then expiry) over the directly observed keyring; listings compared as multisets; keyring content after every listing-type operation; signing with a certificate outside its window must fail; forever certificates still listed at the end. Time is sound: fixed classes are >= 1 h from an edge, a lapsing certificate is either >= 1 s before or definitely past its edge at each step, otherwise the history is abandoned (class time-ambiguous-abandoned). Non-trivial: the model purged a certificate or took an orphan decision with a non-empty report."
 
 func TestC07Purge(t *testing.T) {
 	vh.Run(t, vh.Spec[vh.ShimCase]{Property: "C07", Name: "TestC07Purge", Rule: rule,
@@ -70,7 +70,7 @@ func TestC07PurgeRefused(t *testing.T) {
 			keys := []string{"p256b", "ed25519b", "rsa1536", "p384a", "dsa1024"}
 			for i := 0; i < nbad; i++ {
 				c.Certs = append(c.Certs, vh.CertDef{Key: keys[i], KeyIDClass: rapid.SampledFrom([]string{"text", "ysshca1", "ysshca0"}).Draw(t, fmt.Sprintf("kid%d", i)),
-					Validity: rapid.SampledFrom([]string{"past", "past", "future", "zero"}).Draw(t, fmt.Sprintf("val%d", i)), Serial: uint64(1000 + i)})
+					Validity: rapid.SampledFrom([]string{"past", "past", "future", "zero", "soon", "justpast"}).Draw(t, fmt.Sprintf("val%d", i)), Serial: uint64(1000 + i)})
 			}
 			c.Certs = append(c.Certs, vh.CertDef{Key: keys[3], KeyIDClass: "text", Validity: "current", Serial: 1100})
 			order := rapid.Permutation([]int{0, 1, 2, 3}[:len(c.Certs)]).Draw(t, "order")
@@ -92,6 +92,46 @@ func TestC07PurgeRefused(t *testing.T) {
 				c.Ops = append(c.Ops, op)
 			}
 			c.Ops = append(c.Ops, vh.Op{Kind: "plan", Cert: -1}, vh.Op{Kind: "list", Cert: -1}, vh.Op{Kind: "signers", Cert: -1})
+			return c
+		}, Exec: exec})
+}
+
+// TestC07Many: many certificates at once - the purge loops over long listings.
+func TestC07Many(t *testing.T) {
+	vh.Run(t, vh.Spec[vh.ShimCase]{Property: "C07", Name: "TestC07Many",
+		Rule: "one underlying agent holding 20..90 certificates over the pool keys in drawn order, each current / forever / past / future / zero-window, a part of them also (or only) registered as in-memory hardware certificates, some keys removed out of band afterwards; then list, signers, sign with an out-of-window and with a current certificate, list again; both upstream modes. Same reference model: everything outside its window is purged from both places in one pass, however many there are and wherever they sit in the listing; orphans go, the rest stays",
+		Gen: func(t *rapid.T) vh.ShimCase {
+			c := vh.ShimCase{NoUpstream: rapid.Bool().Draw(t, "noUpstream")}
+			n := rapid.SampledFrom([]int{20, 33, 50, 90}).Draw(t, "ncerts")
+			keys := []string{"p256b", "ed25519b", "p384a", "ed25519c", "p256c", "rsa1536", "dsa1024"}
+			vals := []string{"current", "current", "forever", "past", "past", "past", "future", "zero", "soon", "justpast"}
+			for _, k := range keys {
+				c.Initial = append(c.Initial, vh.Op{Kind: "oobadd", Key: k, Cert: -1, Comment: "k"})
+			}
+			for i := 0; i < n; i++ {
+				c.Certs = append(c.Certs, vh.CertDef{Key: keys[rapid.IntRange(0, len(keys)-1).Draw(t, fmt.Sprintf("key%d", i))], KeyIDClass: rapid.SampledFrom([]string{"text", "ysshca1", "ysshca0", "missing"}).Draw(t, fmt.Sprintf("kid%d", i)),
+					Validity: vals[rapid.IntRange(0, len(vals)-1).Draw(t, fmt.Sprintf("val%d", i))], Serial: uint64(4000 + i)})
+				switch rapid.IntRange(0, 3).Draw(t, fmt.Sprintf("where%d", i)) {
+				case 0:
+					c.Ops = append(c.Ops, vh.Op{Kind: "addhard", Cert: i, Comment: "hw"})
+				case 1:
+					c.Initial = append(c.Initial, vh.Op{Kind: "oobaddcert", Cert: i, Comment: "u"})
+					c.Ops = append(c.Ops, vh.Op{Kind: "addhard", Cert: i, Comment: "hw"})
+				default:
+					c.Initial = append(c.Initial, vh.Op{Kind: "oobaddcert", Cert: i, Comment: "u"})
+				}
+			}
+			nrm := rapid.IntRange(0, 3).Draw(t, "keysLeaving")
+			for i := 0; i < nrm; i++ {
+				c.Ops = append(c.Ops, vh.Op{Kind: "oobremove", Key: keys[rapid.IntRange(0, len(keys)-1).Draw(t, fmt.Sprintf("leave%d", i))], Cert: -1})
+			}
+			first := rapid.SampledFrom([]string{"list", "signers", "sign"}).Draw(t, "first")
+			c.Ops = append(c.Ops, vh.Op{Kind: first, Cert: rapid.IntRange(0, n-1).Draw(t, "firstTarget"), Data: []byte("d")})
+			if first != "sign" {
+				c.Ops[len(c.Ops)-1].Cert = -1
+			}
+			c.Ops = append(c.Ops, vh.Op{Kind: "list", Cert: -1}, vh.Op{Kind: "signers", Cert: -1},
+				vh.Op{Kind: "sign", Cert: rapid.IntRange(0, n-1).Draw(t, "signTarget"), Data: []byte("e")}, vh.Op{Kind: "list", Cert: -1})
 			return c
 		}, Exec: exec})
 }
